@@ -182,7 +182,10 @@ def run(ctx):
         reported.add(key)
         e, dim = entry(cls, cfg, name)
         sim = simkeys_of.get((cls, cfg))
-        impl_bad = [c for c in spec_bad if c["cls"] == cls and c["name"] == name]
+        # a failing input may only be claimed when the implementation-side comparison of THIS name
+        # really fails on this tree (the records are the replay predicate, already evaluated);
+        # probes of other findings (reshape-ambiguity) and 'model' records do not count
+        impl_bad = [c for c in spec_bad if c["cls"] == cls and c["name"] == name and c["kind"] in ("value", "raises", "nobranch", "forms", "iter")]
         what = "%s.Result(%r) [%s]: %s; the dispatch gives %s, the property requires %s (%s:%s)" % (
             cls, name, cfg, why, describe(e) if e else "nothing", py_expected(cls, dim, name), tr["classes"][cls]["file"], tr["classes"][cls]["line"])
         if impl_bad:
